@@ -158,6 +158,7 @@ pub fn exec(case: &[i64]) -> Outcome {
   if kind == 7 { return crate::jws_storage::exec(case); }
   if kind == 8 { return crate::jws_storage::exec_bitflip(case); }
   if kind == 9 { return exec_ecdsa(case); }
+  if kind == 10 { return exec_verifiers(case); }
   let tab = take_table(&mut v);
   let hdr = |i: Option<usize>| -> Option<&JwsHeader> { i.and_then(|i| tab.get(i)).and_then(|e| e.value.as_ref()) };
   let known_custom = tab.iter().any(|e| e.h.as_ref().and_then(|h| h.custom.as_ref()).map(|k| k.iter().any(|i| *i < 14)).unwrap_or(false));
@@ -333,7 +334,71 @@ fn exec_ecdsa(case: &[i64]) -> Outcome {
   o
 }
 
+/// kind 10: the shipped verifiers around their primitive (model: Jose/Verifiers.v).
+/// [10, 0, which, alg, family, <crv> <x> <y> <signature> <message>, point_ok, sig_ok, verdict] - the three flags are what the PRIMITIVES answer (computed when the case is generated)
+fn exec_verifiers(case: &[i64]) -> Outcome {
+  let (which, alg, fam) = (case[2], case[3], case[4]); let mut v = &case[5..];
+  let crv = String::from_utf8(take_bytes(&mut v).unwrap()).unwrap(); let x = String::from_utf8(take_bytes(&mut v).unwrap()).unwrap(); let y = String::from_utf8(take_bytes(&mut v).unwrap()).unwrap();
+  let sig = take_bytes(&mut v).unwrap(); let msg = take_bytes(&mut v).unwrap(); let verdict = v[2] != 0;
+  let jv = match fam { 0 => json!({"kty": "EC", "crv": crv, "x": x, "y": y}), 1 => json!({"kty": "RSA", "n": "AQAB", "e": "AQAB"}), 2 => json!({"kty": "oct", "k": "AAAA"}), _ => json!({"kty": "OKP", "crv": crv, "x": x}) };
+  let jwk: Jwk = match serde_json::from_value(jv) { Ok(j) => j, Err(_) => return Outcome::new(vec![-4]).class("verifier-key-rejected").trivial() };
+  let a = match alg { 0 => JwsAlgorithm::EdDSA, 1 => JwsAlgorithm::ES256, 2 => JwsAlgorithm::ES256K, _ => JwsAlgorithm::ES384 };
+  let input = VerificationInput { alg: a, signing_input: msg.clone().into_boxed_slice(), decoded_signature: sig.clone().into_boxed_slice() };
+  let r = if which == 0 { identity_eddsa_verifier::EdDSAJwsVerifier::default().verify(input, &jwk) } else { identity_ecdsa_verifier::EcDSAJwsVerifier::default().verify(input, &jwk) };
+  let obs = match &r { Ok(()) => vec![0], Err(e) => vec![1, match e.kind() { SignatureVerificationErrorKind::UnsupportedAlg => 1, SignatureVerificationErrorKind::UnsupportedKeyType => 2, SignatureVerificationErrorKind::UnsupportedKeyParams => 3,
+    SignatureVerificationErrorKind::KeyDecodingFailure => 4, SignatureVerificationErrorKind::InvalidSignature => 5, _ => 9 }] };
+  let mut o = Outcome::new(obs).class(if r.is_ok() { "verifier-ok" } else { "verifier-err" });
+  if r.is_ok() && (!verdict || sig.len() != 64) { o = o.fail("a shipped verifier reports a signature verified that the primitive does not accept as received (length or equation)"); }
+  o
+}
+fn gen_verifiers(rng: &mut Rng, thorough: bool, sink: &mut Sink) {
+  use crypto::signatures::ed25519 as ed; use p256::ecdsa::signature::{Signer, Verifier};
+  let msg = b"eyJhbGciOiJFZERTQSJ9.eyJpc3MiOiJ4In0".to_vec(); let other = b"eyJhbGciOiJFZERTQSJ9.eyJpc3MiOiJ5In0".to_vec();
+  let esk = ed::SecretKey::from_bytes(&[7u8; 32]); let epk = esk.public_key(); let esig = esk.sign(&msg).to_bytes().to_vec();
+  let p_sk = p256::ecdsa::SigningKey::from_slice(&[7u8; 32]).unwrap(); let k_sk = k256::ecdsa::SigningKey::from_slice(&[7u8; 32]).unwrap();
+  let psig: p256::ecdsa::Signature = p_sk.sign(&msg); let ksig: k256::ecdsa::Signature = k_sk.sign(&msg);
+  let pp = p_sk.verifying_key().to_encoded_point(false); let kp = k_sk.verifying_key().to_encoded_point(false);
+  let b = |x: &[u8]| encode_b64(x);
+  // primitives: what they answer for the bytes of a case
+  let ed_flags = |x: &str, sig: &[u8], m: &[u8]| -> (i64, i64, i64) {
+    let pk = decode_b64(x).ok().and_then(|v| <[u8; 32]>::try_from(v).ok()).and_then(|a| ed::PublicKey::try_from(a).ok());
+    let verdict = match (&pk, <[u8; 64]>::try_from(sig)) { (Some(pk), Ok(s)) => pk.verify(&ed::Signature::from_bytes(s), m), _ => false };
+    (pk.is_some() as i64, 1, verdict as i64) };
+  let ec_flags = |k1: bool, x: &str, y: &str, sig: &[u8], m: &[u8]| -> (i64, i64, i64) {
+    let xy = match (decode_b64(x), decode_b64(y)) { (Ok(a), Ok(c)) if a.len() == 32 && c.len() == 32 => Some([a, c].concat()), _ => None };
+    if k1 {
+      let pk = xy.and_then(|v| { let ep = k256::EncodedPoint::from_untagged_bytes(k256::elliptic_curve::generic_array::GenericArray::from_slice(&v)); Option::<k256::PublicKey>::from(<k256::PublicKey as k256::elliptic_curve::sec1::FromEncodedPoint<k256::Secp256k1>>::from_encoded_point(&ep)) });
+      let s = k256::ecdsa::Signature::try_from(sig).ok();
+      let verdict = match (&pk, &s) { (Some(pk), Some(s)) => k256::ecdsa::VerifyingKey::from(*pk).verify(m, s).is_ok(), _ => false };
+      (pk.is_some() as i64, s.is_some() as i64, verdict as i64)
+    } else {
+      let pk = xy.and_then(|v| { let ep = p256::EncodedPoint::from_untagged_bytes(p256::elliptic_curve::generic_array::GenericArray::from_slice(&v)); Option::<p256::PublicKey>::from(<p256::PublicKey as p256::elliptic_curve::sec1::FromEncodedPoint<p256::NistP256>>::from_encoded_point(&ep)) });
+      let s = p256::ecdsa::Signature::try_from(sig).ok();
+      let verdict = match (&pk, &s) { (Some(pk), Some(s)) => p256::ecdsa::VerifyingKey::from(*pk).verify(m, s).is_ok(), _ => false };
+      (pk.is_some() as i64, s.is_some() as i64, verdict as i64)
+    } };
+  let mut emit = |sink: &mut Sink, which: i64, alg: i64, fam: i64, crv: &str, x: &str, y: &str, sig: &[u8], m: &[u8], tag: &str| {
+    let (pok, sok, verdict) = if which == 0 { ed_flags(x, sig, m) } else { ec_flags(alg == 2, x, y, sig, m) };
+    let mut c = vec![10, 0, which, alg, fam]; put_bytes(&mut c, crv.as_bytes()); put_bytes(&mut c, x.as_bytes()); put_bytes(&mut c, y.as_bytes()); put_bytes(&mut c, sig); put_bytes(&mut c, m); c.extend([pok, sok, verdict]); sink.case(c, tag); };
+  let sig_shapes = |s: &[u8]| -> Vec<Vec<u8>> { let mut flipped = s.to_vec(); flipped[5] ^= 1; let mut lastflip = s.to_vec(); let n = lastflip.len(); lastflip[n - 1] ^= 0x80;
+    vec![s.to_vec(), flipped, lastflip, s[..63].to_vec(), [s.to_vec(), vec![0]].concat(), [s.to_vec(), s.to_vec()].concat(), vec![], vec![0; 64], vec![0xff; 64], s[..32].to_vec(), [vec![0], s.to_vec()].concat()] };
+  // EdDSA verifier
+  let ex = b(epk.as_slice());
+  let x_shapes: Vec<String> = vec![ex.clone(), b(&epk.as_slice()[..31]), b(&[epk.as_slice(), &[0u8][..]].concat()), "!!".into(), "".into(), b(&[0xffu8; 32]), b(&[0u8; 32]), format!("{}=", ex), b(&[2u8; 32])];
+  for alg in 0..4 { for fam in 0..4 { for crv in ["Ed25519", "Ed448", "X25519", "ed25519", "", "P-256"] { emit(sink, 0, alg, fam, crv, &ex, "", &esig, &msg, "verifier-eddsa-dispatch"); } } }
+  for x in &x_shapes { for sg in sig_shapes(&esig) { for m in [&msg, &other] { emit(sink, 0, 0, 3, "Ed25519", x, "", &sg, m, "verifier-eddsa-bytes"); } } }
+  // ECDSA verifier: both curves, keys of either curve under either algorithm
+  let (px, py, kx, ky) = (b(pp.x().unwrap()), b(pp.y().unwrap()), b(kp.x().unwrap()), b(kp.y().unwrap()));
+  for alg in 0..4 { for fam in 0..4 { for crv in ["P-256", "secp256k1", "P-384", ""] { for (x, y, sg) in [(&px, &py, psig.to_bytes().to_vec()), (&kx, &ky, ksig.to_bytes().to_vec())] { emit(sink, 1, alg, fam, crv, x, y, &sg, &msg, "verifier-ecdsa-dispatch"); } } } }
+  for (alg, x, y, s) in [(1i64, &px, &py, psig.to_bytes().to_vec()), (2, &kx, &ky, ksig.to_bytes().to_vec())] {
+    for sg in sig_shapes(&s) { for m in [&msg, &other] { emit(sink, 1, alg, 0, if alg == 1 { "P-256" } else { "secp256k1" }, x, y, &sg, m, "verifier-ecdsa-bytes"); } }
+    let short = b(&decode_b64(x.as_str()).unwrap()[..31]); let long = b(&[decode_b64(x.as_str()).unwrap(), vec![0]].concat());
+    for (xx, yy) in [(short.clone(), y.clone()), (x.clone(), short.clone()), (long.clone(), y.clone()), ("!!".to_string(), y.clone()), (x.clone(), "".to_string()), (y.clone(), x.clone()), (b(&[0xffu8; 32]), b(&[0xffu8; 32])), (b(&[0u8; 32]), b(&[0u8; 32]))] { emit(sink, 1, alg, 0, "P-256", &xx, &yy, &s, &msg, "verifier-ecdsa-key-bytes"); }
+  }
+  if thorough { for _ in 0..400 { let mut sg = esig.clone(); let i = rng.below(64) as usize; sg[i] ^= 1 << rng.below(8); emit(sink, 0, 0, 3, "Ed25519", &ex, "", &sg, &msg, "verifier-eddsa-bitflips"); } }
+}
 pub fn gen_c01(rng: &mut Rng, thorough: bool, sink: &mut Sink) {
+  gen_verifiers(rng, thorough, sink);
   for kc in 0..2 { for sc in 0..2 { for halg in [2i64, 3] { for pin in [0i64, 2, 3] { for ser in 0..2 { sink.case(vec![9, kc, sc, halg, pin, ser], "ecdsa-real-keys"); } } } } }
   for kc in 0..2 { for pin in [0i64, 2, 3] { for ser in 0..2 { for shape in 1..5 { sink.case(vec![9, kc, kc, 2 + kc, pin, ser, shape], "ecdsa-signature-length"); } } } }
   let sig = b"signature-bytes!";
